@@ -142,7 +142,7 @@ def Atom.validator (spec : String) : Option (Callback Atom Atom) :=
 def Atom.strV : Callback Atom Atom := fun _ x => .ok (.str x.val)
 /-- `int(x)` as a validator. -/
 def Atom.intV : Callback Atom Atom := fun _ x => .ok (.int x.val)
-/-- `int(x) + 1`: a validator that is not idempotent (used by the F18 witness). -/
+/-- `int(x) + 1`: a validator that is not idempotent (used by the F25 witness). -/
 def Atom.incV : Callback Atom Atom := fun _ x => .ok (.int (x.val + 1))
 
 /-- Decidable equality of results (core has none for `Except`); used by the
